@@ -27,6 +27,8 @@ import warnings
 VERIF_DIR = pathlib.Path(__file__).resolve().parent.parent
 REPO_DIR = pathlib.Path(os.environ.get('VERIF_REPO', '/repo'))
 N_CORES = int(os.environ.get('VERIF_CORES', '16'))
+# mutant / scratch runs redirect their outputs so that committed evidence is not touched
+OUT_DIR = pathlib.Path(os.environ.get('VERIF_OUT_DIR') or VERIF_DIR)
 
 
 class Violation(Exception):
@@ -262,7 +264,7 @@ def _run_hypothesis(mod, pid, tier, seed, shard, n, out, record, t_start, budget
 
 # ---------------------------------------------------------------- main
 def write_replay(pid, v):
-    d = VERIF_DIR / 'replays' / pid
+    d = OUT_DIR / 'replays' / pid
     d.mkdir(parents=True, exist_ok=True)
     body = {'property': pid, 'clause': v['clause'], 'detail': v.get('detail'), 'spec': v['spec']}
     h = spec_hash(v['spec'])
@@ -437,8 +439,8 @@ def main(argv=None):
         'wall_s': round(wall, 2), 'violations': len(violations),
         'technique': getattr(mod, 'TECHNIQUE', ''),
     }
-    (VERIF_DIR / 'evidence').mkdir(exist_ok=True)
-    (VERIF_DIR / 'evidence' / f'{pid}.json').write_text(json.dumps(ev, indent=1, default=str))
+    (OUT_DIR / 'evidence').mkdir(exist_ok=True, parents=True)
+    (OUT_DIR / 'evidence' / f'{pid}.json').write_text(json.dumps(ev, indent=1, default=str))
 
     for line in known_lines:
         print(line)
